@@ -402,7 +402,6 @@ def run(ck: Check):
     ok_t, out_t = ck.regenerate_schemas()
     ok_p, out_p = ck.coq_props("C11", timeout=1200)
     import time as _time
-    t_start = _time.time()
 
     def lap(what):
         ck.log(f"  [{_time.time() - ck.t0:6.1f}s] {what}")
@@ -434,7 +433,7 @@ def run(ck: Check):
 
     # ---------------------------------------------------------------- (2a) codec cases
     cases = []          # (name, tree, value)
-    nper = ck.n(16, 200)
+    nper = ck.n(16, 120)
     for name, s in list(structs.items()) + list(prims.items()):
         if name in unknown_types:
             continue
@@ -782,6 +781,7 @@ def run(ck: Check):
     syn_real = run_impl("c11_impl.py", {"synthetic": [[v, a] for v, a in syn], "maxv": 13}, env=IMPL_ENV,
                         timeout=300)["synthetic"]
     syn_ok, syn_detail = model_ok, "" if model_ok else "model did not build"
+    n_syn_viol = 0
     if model_ok:
         body = (
             "Definition rng (lo hi : Z) : list Z := map (fun n => lo + Z.of_nat n) (seq 0 (Z.to_nat (hi - lo + 1))).\n"
@@ -809,6 +809,9 @@ def run(ck: Check):
                     good = (o == -2) if not inr else (isinstance(o, int) and o >= 0 and adv[0] <= vs[o] <= adv[1]
                                                     and (vs != sorted(vs) or vs[o] == max(inr)))
                     if not good:
+                        n_syn_viol += 1
+                        if n_syn_viol > 3:
+                            break
                         ck.violation(f"Request.prepare with class versions {vs}, advertised {adv}: outcome {o}",
                                      {"kind": "synthetic", "versions": vs, "advertised": adv, "outcome": o},
                                      signature=f"prepare:{vs}:{adv}")
